@@ -137,3 +137,31 @@ impl Counter {
         e.storage().persistent().get(&CounterKey::Count(tag)).unwrap_or(0)
     }
 }
+
+/// A contract governed by somebody else (here: by a timelock controller): its only entry point
+/// demands the governor's authorization.
+#[contract]
+pub struct Governed;
+
+#[contracttype]
+pub enum GovKey {
+    Governor,
+    Pokes,
+}
+
+#[contractimpl]
+impl Governed {
+    pub fn __constructor(e: &Env, governor: Address) {
+        e.storage().instance().set(&GovKey::Governor, &governor);
+    }
+    pub fn poke(e: &Env, x: u32) -> u32 {
+        let g: Address = e.storage().instance().get(&GovKey::Governor).unwrap();
+        g.require_auth();
+        let n: u32 = e.storage().instance().get(&GovKey::Pokes).unwrap_or(0);
+        e.storage().instance().set(&GovKey::Pokes, &(n + x));
+        n + x
+    }
+    pub fn pokes(e: &Env) -> u32 {
+        e.storage().instance().get(&GovKey::Pokes).unwrap_or(0)
+    }
+}
